@@ -1555,7 +1555,7 @@ def lower_getitem_at_partitioned(context, builder, sig, args):
         builder.not_(
             builder.and_(
                 builder.icmp_signed("<=", localstart, atval),
-                builder.icmp_signed(">", atval, localstop),
+                builder.icmp_signed("<", atval, localstop),
             )
         ),
         likely=False,
@@ -1572,6 +1572,19 @@ def lower_getitem_at_partitioned(context, builder, sig, args):
         )
         builder.store(partitionid_val, partviewproxy.partitionid)
 
+        newlocalstart = partviewtype.lower_get_localstart(
+            context,
+            builder,
+            partviewproxy.stops,
+            builder.load(partviewproxy.partitionid),
+        )
+        newlocalstop = partviewtype.lower_get_localstop(
+            context,
+            builder,
+            partviewproxy.stops,
+            builder.load(partviewproxy.partitionid),
+        )
+
         pyapi = context.get_python_api(builder)
         gil = pyapi.gil_ensure()
         builder.store(
@@ -1581,7 +1594,7 @@ def lower_getitem_at_partitioned(context, builder, sig, args):
                 pyapi,
                 partviewproxy.pylookups,
                 builder.load(partviewproxy.partitionid),
-                builder.sub(localstop, localstart),
+                builder.sub(newlocalstop, newlocalstart),
             ),
             partviewproxy.view,
         )
